@@ -734,7 +734,7 @@ func (f *Frame) instr(ins ssa.Instruction) {
 		}
 		ss := e.sorts.structSortOf(sT, s)
 		fl := s.Field(i.Field)
-		f.set(i, term(app(ss.Fields[i.Field].Acc, x.T), ss.Fields[i.Field].Sort, fl.Type()))
+		f.set(i, term(e.fieldOf(ss, i.Field, x.T), ss.Fields[i.Field].Sort, fl.Type()))
 	case *ssa.IndexAddr:
 		x := f.val(i.X)
 		idx := f.val(i.Index)
@@ -1006,9 +1006,11 @@ func (f *Frame) binop(op token.Token, x, y *Value, rt types.Type, pos token.Pos)
 			return term(app("bitandnot", x.T, y.T), rs, rt)
 		}
 	case sF64:
-		m := map[token.Token]string{token.ADD: "fp.add", token.SUB: "fp.sub", token.MUL: "fp.mul", token.QUO: "fp.div"}
+		// float arithmetic is uninterpreted (equal operands give equal results; no numeric facts): see DESIGN §3.3
+		m := map[token.Token]string{token.ADD: "fadd", token.SUB: "fsub", token.MUL: "fmul", token.QUO: "fdiv"}
 		if o, ok := m[op]; ok {
-			return term(app(o, "RNE", x.T, y.T), rs, rt)
+			e.note("float64 + - * / are uninterpreted functions")
+			return term(app(o, x.T, y.T), rs, rt)
 		}
 	case sStr:
 		if op == token.ADD {
@@ -1123,6 +1125,16 @@ func (e *Encoder) unwrapAny(x string, t types.Type) *Value {
 
 func (e *Encoder) anyIs(x string, t types.Type) string {
 	if _, isIface := t.Underlying().(*types.Interface); isIface {
+		// closed interface: exactly its listed implementations
+		if impls, ok := e.ct.Closed[namedPathShort(t)]; ok {
+			var alts []string
+			for _, tn := range impls {
+				if it := e.lookupType(tn, nil); it != nil {
+					alts = append(alts, e.anyIs(x, it))
+				}
+			}
+			return or(alts...)
+		}
 		return not(eq(x, "ANil"))
 	}
 	tag := fmt.Sprint(e.sorts.tagOf(t))
@@ -1164,6 +1176,8 @@ func (f *Frame) typeAssert(i *ssa.TypeAssert) {
 	} else {
 		v = e.unwrapAny(x.T, i.AssertedType)
 	}
+	// heap well-formedness: a reference held in an interface value is an allocated object
+	e.assumeAllocated(f.st, and(f.pc, ok), v)
 	if i.CommaOk {
 		okc := e.define(f.id+"."+i.Name()+".ok", sBool, ok)
 		zero := e.sorts.zero(i.AssertedType)
